@@ -23,6 +23,8 @@ Definition temp_attr : list string := [].
 Definition core_data : list string := [].
 Definition views : list (string * string * bool) := [].
 Definition clear_sites : list (string * list string * bool) := [("unrecognised", ["_graph_nx"], false)].
+Definition conditional_clears : list string := ["unrecognised"].
+Definition reinit_sites : list (string * bool) := [("unrecognised", false)].
 Definition getstate_pops : list string := [].
 Definition copy_clears_when_stale : bool := false.
 Definition temp_property_shape_ok : bool := false.
@@ -115,6 +117,35 @@ def facts():
                     if excl is None:
                         continue
                     f['clear_sites'].append(('%s:%s:%d' % (p.relative_to(REPO), fn.name, c.lineno), excl, 'lock_neuron' in deco_names(fn)))
+    # clear calls that only run under a test on `inplace`, and re-initialisations (x.__init__(...) resets the stored hash, so the
+    # stale check cannot fire afterwards) that are not followed by an unconditional clear of the same object
+    f['conditional_clears'], f['reinit_sites'] = [], []
+    for p in sorted(REPO.rglob('*.py')):
+        tree = ast.parse(p.read_text())
+        for fn in [x for x in ast.walk(tree) if isinstance(x, (ast.FunctionDef, ast.AsyncFunctionDef))]:
+            guarded_ids = set()
+            is_clear = lambda d: isinstance(d, ast.Call) and isinstance(d.func, ast.Attribute) and d.func.attr == '_clear_temp_attr'
+            for i in ast.walk(fn):
+                if isinstance(i, ast.If) and 'inplace' in ast.unparse(i.test):
+                    in_body = [d for sub in i.body for d in ast.walk(sub) if is_clear(d)]
+                    in_else = [d for sub in i.orelse for d in ast.walk(sub) if is_clear(d)]
+                    if bool(in_body) != bool(in_else):        # cleared on one side of the inplace test only
+                        for d in in_body + in_else:
+                            guarded_ids.add(id(d))
+            clears = [(c.lineno, ast.unparse(c.func.value), id(c) in guarded_ids) for c in ast.walk(fn)
+                      if isinstance(c, ast.Call) and isinstance(c.func, ast.Attribute) and c.func.attr == '_clear_temp_attr']
+            for ln, who, cond in clears:
+                if cond:
+                    f['conditional_clears'].append('%s:%s:%d' % (p.relative_to(REPO), fn.name, ln))
+            if fn.name == '__init__':
+                continue
+            for c in ast.walk(fn):
+                if isinstance(c, ast.Call) and isinstance(c.func, ast.Attribute) and c.func.attr == '__init__' and isinstance(c.func.value, ast.Name):
+                    who = c.func.value.id
+                    ok = any(ln > c.lineno and w == who and not cond for ln, w, cond in clears)
+                    f['reinit_sites'].append(('%s:%s:%d' % (p.relative_to(REPO), fn.name, c.lineno), ok))
+    f['conditional_clears'] = sorted(set(f['conditional_clears']))
+    f['reinit_sites'] = sorted(set(f['reinit_sites']))
     # de-duplicate nested function reports
     f['clear_sites'] = sorted(set((a, tuple(b), c) for a, b, c in f['clear_sites']))
     # temp_property shape
@@ -150,6 +181,10 @@ def generate():
            '(* (call site, literal exclude list, enclosing function is @lock_neuron) *)',
            'Definition clear_sites : list (string * list string * bool) := %s.' % coq_list(
                '(%s, %s, %s)' % (coq_str(a), coq_list(coq_str(e) for e in b), 'true' if c else 'false') for a, b, c in f['clear_sites']),
+           '(* clear calls nested under a test on `inplace` *)',
+           'Definition conditional_clears : list string := %s.' % coq_list(coq_str(a) for a in f['conditional_clears']),
+           '(* (site of  x.__init__(...)  outside a constructor, followed by an unconditional x._clear_temp_attr()) *)',
+           'Definition reinit_sites : list (string * bool) := %s.' % coq_list('(%s, %s)' % (coq_str(a), 'true' if b else 'false') for a, b in f['reinit_sites']),
            'Definition getstate_pops : list string := %s.' % coq_list(coq_str(a) for a in f['getstate_pops']),
            'Definition copy_clears_when_stale : bool := %s.' % ('true' if f['copy_clears'] else 'false'),
            'Definition temp_property_shape_ok : bool := %s.' % ('true' if f['tp_ok'] else 'false'),
